@@ -1156,7 +1156,7 @@ fn main() {
                     (Ok(size), Ok(seed), Ok(wmax), Ok(rmax), Ok(ws), Ok(rs)) if *dir == "c2s" || *dir == "s2c" => {
                         out.flush().unwrap();
                         let (fam, dir) = (fam.to_string(), dir.to_string());
-                        in_child_for(120, move || stream(&fam, size, seed, wmax, rmax, ws, rs, &dir))
+                        in_child_for(40, move || stream(&fam, size, seed, wmax, rmax, ws, rs, &dir))
                     }
                     _ => "bad-op".to_string(),
                 }
